@@ -63,14 +63,16 @@ def run(tier, seed, replay=None):
     c = res["counters"]
     if not replay and not res["violations"] and (c.get("status_replies_verified", 0) == 0 or c.get("refusals_verified", 0) == 0
                                                    or c.get("left_behind_units_found", 0) + c.get("left_behind_unit_absent", 0) == 0
-                                                   or c.get("concurrent_lists", 0) == 0
+                                                   or c.get("concurrent_lists", 0) == 0 or c.get("refused_by_executor", 0) == 0
                                                    or c.get("refused_submits_secret_among_ordinary_keys", 0) < 20):
         raise vlib.Inconclusive("vacuous run: %s" % c)
     cov = {
         "states": r.distinct, "transitions": r.generated, "traces_validated_against_impl": 0,
         "evaluations": res["evaluations"], "distinct_nontrivial": res["distinct"],
         "rule": ("TLC explores every history (submit variant - accepted with/without ttl, expired at once, client gone before stdin, listed by another session "
-                 "mid-allocation, unknown TLS profile, malformed ttl which leaves the allocated unit behind, crash between the two allocation steps - x "
+                 "mid-allocation, unknown TLS profile, malformed ttl which leaves the allocated unit behind, crash between the two allocation steps, "
+                 "submission refused by the node that was to run it (type unknown there / signature wanted / parameter not allowed: error text "
+                 "returned and kept as the unit's Detail) - x "
                  "key-class subset x TLS profile named or not x <= MaxOps operations) of ControlSession.tla part c19 (%s) and exports those of <= ExportOps "
                  "operations for the plain submit and fixed short histories for the other variants; " % cfg) +
                 ("a seeded sample (%d plain-submit histories, %d crash histories, all other variants; %d of %d exported) is" % (QUICK_MAX, QUICK_CRASH, planned, nvec) if quick else "every exported history is") +
